@@ -89,6 +89,7 @@ Definition s_reg (s : sst) (a : action) : sst :=
   | AWatch _ _ _ _ => s
   | ACancel _ => s
   | ANop => s
+  | ADrop => s
   end.
 
 (* the UNBIND notification: the callback may register new watches (fresh identities) *)
@@ -194,6 +195,7 @@ Definition q_reg (s : qst) (a : action) : qst :=
   | AWatch _ _ _ _ => s
   | ACancel _ => s
   | ANop => s
+  | ADrop => s
   end.
 
 Definition q_regs (s : qst) (l : list action) : qst := fold_left q_reg l s.
